@@ -148,6 +148,12 @@ def execute(plan):
         judge(A, ref_cfg, problem, 1, 0, add, "reference")
     T = len(f_hist)
     results = []
+    f_start = None
+    first = next((e for e in A.events if e[0] == "fun"), None)
+    if first is not None:
+        import struct as _st
+
+        f_start = _st.unpack("<d", first[3])[0]
 
     def last_f(act, start_f):
         return act.states[-1]["snap"]["fun"] if act.states else start_f
@@ -213,8 +219,9 @@ def execute(plan):
             nf = nfev_hist[j - 1] if 1 <= j <= T else 1
             c["maxfun"] = max(1, near(nf))
             bound.append("maxfun")
-        if "ftarget" in which and T:
-            fj = f_hist[min(max(j, 1), T) - 1]
+        if "ftarget" in which and (T or f_start is not None):
+            # j == 0: the target is already met at the start point (early exit before any gradient)
+            fj = f_hist[min(max(j, 1), T) - 1] if (T and (j >= 1 or f_start is None)) else f_start
             tgt = float(choice(rng, [fj, np.nextafter(fj, np.inf), np.nextafter(fj, -np.inf), fj + 1e-9 * (1 + abs(fj))]))
             c["ftarget"] = {"callable": tgt} if rng.random() < 0.4 else tgt
             bound.append("ftarget")
@@ -255,6 +262,8 @@ def execute(plan):
             elif kind == "target_met":
                 tv = float(choice(rng, [fun_ck, np.nextafter(fun_ck, np.inf), fun_ck + 1.0]))
                 c["ftarget"] = {"callable": tv} if rng.random() < 0.4 else tv
+                if rng.random() < 0.5:
+                    c["gtol"] = {"callable": 0.0}
             elif kind == "maxfun_below":
                 c["maxfun"] = int(rng.integers(1, max(2, nfev_ck + 1)))
             elif kind == "continue_cb":
